@@ -262,8 +262,19 @@ def w_compare(ctx, rng, i):
     else:
         sig = (rng.normal(0, 1, n) + 1j * rng.normal(0, 1, n)) * scale
         noise = (rng.normal(0, 1, n) + 1j * rng.normal(0, 1, n)) * scale * 0.2 if rng.integers(2) else None
+    # sample dtypes other than float64 / complex128: what a frame grabber or a saved capture delivers (float32, int32, int16 counts with
+    # float32 noise ...). The container unifies signal and noise to their common numpy result type; values must survive that.
+    narrow = kind in ("nonneg_real", "nonneg_real_noise") and i % 7 not in (0, 3) and thr_form not in ("int", "npint", "int_array") and rng.integers(3) == 0
+    if narrow:
+        sdt, ndt = [(np.float32, np.float32), (np.int64, np.float32), (np.int32, np.float32), (np.float64, np.float32), (np.float32, np.float64), (np.int16, np.float16), (np.uint8, np.float64)][int(rng.integers(7))]
+        if np.issubdtype(sdt, np.integer):
+            scale = 1.0
+            sig = np.round(np.abs(rng.normal(0, 1, n)) * 20 + 1)
+            noise = rng.uniform(-0.9, 0.9, n) if noise is not None else None
+        sig = sig.astype(sdt)
+        noise = None if noise is None else noise.astype(ndt)
     x = T.electrical_signal(sig, noise)
-    tot = sig + (noise if noise is not None else 0)
+    tot = sig.astype(complex if np.iscomplexobj(sig) else float) + (noise.astype(complex if np.iscomplexobj(noise) else float) if noise is not None else 0)
     tv = np.abs(rng.normal(0, 1, n)) * scale if thr_form in ("list", "array", "esignal", "tuple", "int_array") else np.array([abs(rng.normal(0.7, 0.5)) * scale])
     if i % 7 == 0 and n > 1:   # thresholds exactly on sample values (ties)
         tv = np.abs(tot).copy() if tv.size == n else np.array([float(np.abs(tot)[0])])
@@ -284,8 +295,12 @@ def w_compare(ctx, rng, i):
     for name, r, op in (("gt", g, np.greater), ("lt", l, np.less)):
         ctx.check("cmp.valid", isinstance(r, T.binary_sequence) and valid_data(r.data) and len(r) == n, f"{name}: not a valid binary_sequence of length {n}: {core.jsonable(getattr(r, 'data', None))}")
         if kind.startswith("nonneg"):
-            want = op(tot.real, tv if tv.size == n else tv[0]).astype(np.uint8)
-            ctx.check("cmp.value", isinstance(r, T.binary_sequence) and np.array_equal(r.data, want), f"x {name} threshold differs from element-wise comparison of signal+noise", got=getattr(r, "data", None), want=want)
+            thv = tv if tv.size == n else tv[0]
+            want = op(tot.real, thv).astype(np.uint8)
+            # single-precision containers add signal and noise in float32: samples closer to the threshold than that rounding are not decided
+            sure = np.abs(tot.real - thv) > 1e-5 * np.maximum(np.abs(tot.real), np.abs(thv)) if narrow else np.ones(n, bool)
+            ctx.check("cmp.value", isinstance(r, T.binary_sequence) and r.data.shape == want.shape and np.array_equal(r.data[sure], want[sure]),
+                      f"x {name} threshold differs from element-wise comparison of signal+noise (signal dtype {sig.dtype}, noise dtype {None if noise is None else noise.dtype})", got=getattr(r, "data", None), want=want)
     ctx.check("cmp.operands", core.digest(x.signal, x.noise) == d0, "comparison modified the signal")
     ctx.case(("cmp", kind, n, thr_form, round(np.log10(scale))), nontrivial=n >= 2, sample={"kind": kind, "n": n, "threshold_form": thr_form} if i < 4 else None)
     ctx.bin("cmp.kind", kind)
